@@ -15,6 +15,8 @@ pub struct UStr {
     /// empty strings only: encode as a bare length byte 0 (true) or as
     /// length 1 + terminator (false)
     pub bare_empty: bool,
+    /// UCS-2 only: the extra byte 01 some games insert between the length byte and the text (not counted in the length)
+    pub marker: bool,
 }
 
 impl UStr {
@@ -22,13 +24,16 @@ impl UStr {
         Self {
             chars: s.chars().collect(),
             ucs2: false,
-            bare_empty: true,
+            bare_empty: true, marker: false,
         }
     }
 
     pub fn encode(&self, out: &mut Vec<u8>) {
         if self.chars.is_empty() && self.bare_empty {
             out.push(if self.ucs2 { 0x80 } else { 0x00 });
+            if self.ucs2 && self.marker {
+                out.push(0x01);
+            }
             return;
         }
         if self.ucs2 {
@@ -41,6 +46,9 @@ impl UStr {
             let n = units.len() + 1;
             assert!(n <= 0x7f);
             out.push(0x80 | n as u8);
+            if self.marker {
+                out.push(0x01);
+            }
             for u in units {
                 out.extend_from_slice(&u.to_le_bytes());
             }
@@ -241,12 +249,12 @@ pub fn ustr_alts(default: &str) -> Vec<UStr> {
     v.push(UStr {
         chars: vec![],
         ucs2: false,
-        bare_empty: true,
+        bare_empty: true, marker: false,
     });
     v.push(UStr {
         chars: vec![],
         ucs2: false,
-        bare_empty: false,
+        bare_empty: false, marker: false,
     });
     // high Latin-1
     v.push(UStr::plain("Zürich café ÿ"));
@@ -260,7 +268,7 @@ pub fn ustr_alts(default: &str) -> Vec<UStr> {
     v.push(UStr {
         chars: s,
         ucs2: false,
-        bare_empty: true,
+        bare_empty: true, marker: false,
     });
     let mut s: Vec<char> = d[.. d.len() / 2].to_vec();
     s.extend(col);
@@ -268,14 +276,14 @@ pub fn ustr_alts(default: &str) -> Vec<UStr> {
     v.push(UStr {
         chars: s,
         ucs2: false,
-        bare_empty: true,
+        bare_empty: true, marker: false,
     });
     let mut s = d.clone();
     s.extend(col);
     v.push(UStr {
         chars: s,
         ucs2: false,
-        bare_empty: true,
+        bare_empty: true, marker: false,
     });
     let mut s = col.to_vec();
     s.extend(col);
@@ -283,7 +291,7 @@ pub fn ustr_alts(default: &str) -> Vec<UStr> {
     v.push(UStr {
         chars: s,
         ucs2: false,
-        bare_empty: true,
+        bare_empty: true, marker: false,
     });
     // control characters 01..1A inside
     let mut s = d.clone();
@@ -292,18 +300,18 @@ pub fn ustr_alts(default: &str) -> Vec<UStr> {
     v.push(UStr {
         chars: s,
         ucs2: false,
-        bare_empty: true,
+        bare_empty: true, marker: false,
     });
     // UCS-2 variants
     v.push(UStr {
         chars: d.clone(),
         ucs2: true,
-        bare_empty: true,
+        bare_empty: true, marker: false,
     });
     v.push(UStr {
         chars: "Привет 東京".chars().collect(),
         ucs2: true,
-        bare_empty: true,
+        bare_empty: true, marker: false,
     });
     let mut s = d.clone();
     s.extend(col);
@@ -311,13 +319,17 @@ pub fn ustr_alts(default: &str) -> Vec<UStr> {
     v.push(UStr {
         chars: s,
         ucs2: true,
-        bare_empty: true,
+        bare_empty: true, marker: false,
     });
     v.push(UStr {
         chars: vec![],
         ucs2: true,
-        bare_empty: false,
+        bare_empty: false, marker: false,
     });
+    // UCS-2 with the extra marker byte some games insert after the length byte
+    v.push(UStr { chars: d.clone(), ucs2: true, bare_empty: true, marker: true });
+    v.push(UStr { chars: "東京 x".chars().collect(), ucs2: true, bare_empty: true, marker: true });
+    v.push(UStr { chars: vec![], ucs2: true, bare_empty: true, marker: true });
     v
 }
 
@@ -330,14 +342,14 @@ pub fn ustr_of_len_byte(len_byte: u8) -> Option<UStr> {
         return Some(UStr {
             chars: vec![],
             ucs2,
-            bare_empty: true,
+            bare_empty: true, marker: false,
         });
     }
     let chars: Vec<char> = (0 .. n - 1).map(|i| (b'a' + (i % 26) as u8) as char).collect();
     Some(UStr {
         chars,
         ucs2,
-        bare_empty: false,
+        bare_empty: false, marker: false,
     })
 }
 
@@ -365,7 +377,7 @@ pub fn gen_u2(c: &mut Chooser, rule_counts: &[usize], player_counts: &[usize]) -
                 UStr {
                     chars: "Ключ".chars().collect(),
                     ucs2: true,
-                    bare_empty: true,
+                    bare_empty: true, marker: false,
                 },
             ]);
             let val = pick(c, &{
